@@ -1,5 +1,7 @@
 package main
 
+import "golang.org/x/tools/go/packages"
+
 import (
 	"fmt"
 	"go/ast"
@@ -31,6 +33,14 @@ func checkC17(c *Ctx) {
 	c.nniTypestate(ap, true)
 	c.nniTypestate(un, false)
 	c.nniRestore(ap, un)
+	c.Decides("FMT-CONST: the nni command and the rearrangement code never use a computed text (the neighbour's Newick) as a printf format string")
+	var nniPkgs []*packages.Package
+	for _, r := range []string{"cmd", "tree"} {
+		if p := c.Pkg(r); p != nil {
+			nniPkgs = append(nniPkgs, p)
+		}
+	}
+	c.fmtConst("FMT-CONST", nniPkgs, "each of them is a well-formed tree on the same tips", nil)
 	c.Floor("GF", 2)
 	c.Floor("SLOTS", 2)
 	c.Floor("PAIR", 8)
